@@ -69,6 +69,18 @@ def specialised(n: int):
     return ilist.map(leafm, ilist.range(n))
 
 @move
+def midm(n: int):
+    return ilist.map(leafm, ilist.range(n))
+
+@move
+def plain2(n: int):
+    return ilist.map(midm, ilist.range(n))
+
+@move(arch_spec=_C06.SPEC_SLOT)
+def specialised2(n: int):
+    return ilist.map(midm, ilist.range(n))
+
+@move
 def plain_direct(n: int):
     return leafm(n)
 
@@ -84,11 +96,14 @@ def first_class_stream(ctx, spec):
     SPEC_SLOT = spec
     mod = T.load_source(FIRST_CLASS_SRC, "c06fc")
     for n in (0, 1, 3):
-        for a, b, what in ((mod.plain, mod.specialised, "passed to ilist.map"), (mod.plain_direct, mod.specialised_direct, "called directly")):
+        for a, b, what in ((mod.plain, mod.specialised, "passed to ilist.map"), (mod.plain_direct, mod.specialised_direct, "called directly"),
+                           (mod.plain2, mod.specialised2, "passed to ilist.map by a subroutine that is itself passed to ilist.map")):
             ref = EV.run_with_events(a, spec, (n,))
             got = EV.run_with_events(b, spec, (n,), plain=True)
-            r1 = "err" if ref.error else f"ok {list(ref.result) if hasattr(ref.result, '__iter__') else ref.result}"
-            r2 = "err" if got.error else f"ok {list(got.result) if hasattr(got.result, '__iter__') else got.result}"
+            def show(v):
+                return [show(x) for x in v] if hasattr(v, "__iter__") else v
+            r1 = "err" if ref.error else f"ok {show(ref.result)}"
+            r2 = "err" if got.error else f"ok {show(got.result)}"
             ctx.count("first_class_runs")
             if r1 != r2:
                 ctx.fail({"source": FIRST_CLASS_SRC, "kernel": b.sym_name, "args": [n]},
